@@ -131,6 +131,7 @@ func TestC07(t *testing.T) {
 		stream := append(append([]byte{}, first...), rest...)
 		// cut
 		cut := -1
+		cutInRetry := false
 		var endErr error = io.EOF
 		if rapid.IntRange(0, 2).Draw(t, "cut?") == 0 && len(rest) > 0 {
 			cut = len(first) + len(retryIn) + uniform(t, "cut", len(rest)-len(retryIn)+1)
@@ -139,6 +140,11 @@ func TestC07(t *testing.T) {
 			}
 			if cut < len(first)+len(retryIn) {
 				cut = len(first) + len(retryIn) // hrr mode: never inside the retry flight (it is replaced, not relayed)
+			}
+			if hrrMode && rapid.IntRange(0, 2).Draw(t, "cut_in_retry_flight") == 0 {
+				cut = len(first) + uniform(t, "cut_retry", len(retryIn))
+				cutInRetry = true
+				cl = append(cl, "cut_inside_retry_flight")
 			}
 			if rapid.Bool().Draw(t, "cut_err") {
 				endErr = wire.ErrInjected
@@ -160,10 +166,16 @@ func TestC07(t *testing.T) {
 			stream = stream[:cut]
 		}
 		want := append(append([]byte{}, wantFirst...), retryWant...)
-		want = append(want, stream[len(first)+len(retryIn):]...)
+		if !cutInRetry {
+			want = append(want, stream[len(first)+len(retryIn):]...)
+		} else {
+			// the transport ends inside the retry flight: what had arrived (a whole
+			// change_cipher_spec, the incomplete retried hello as received) is delivered
+			want = append(append([]byte{}, wantFirst...), stream[len(first):]...)
+		}
 		// record-header version bytes of the two rewritten hellos may be normalised
 		vmask := []int{1, 2}
-		if hrrMode {
+		if hrrMode && !cutInRetry {
 			h2 := len(wantFirst) + ccsLen(retryWant) // offset of the rewritten second hello
 			vmask = append(vmask, h2+1, h2+2)
 			cl = append(cl, "hrr_then_retried_hello")
